@@ -51,7 +51,7 @@ func (g Graph) Build() *astisub.Subtitles {
 	for _, id := range g.Regions {
 		s.Regions[id] = &astisub.Region{ID: id, InlineStyle: &astisub.StyleAttributes{}}
 		if st := g.RegionStyle[id]; st != "" {
-			s.Regions[id].Style = s.Styles[st]
+			s.Regions[id].Style = style(st)
 		}
 	}
 	for i, c := range g.Cues {
@@ -95,7 +95,11 @@ func (g Graph) reach() (map[string]bool, map[string]bool) {
 	}
 	// by identifier: a loose reference keeps the table's definition of that identifier, one to an identifier the
 	// table does not have keeps nothing
-	es, er := refops.Reach(cs, cr, g.RegionStyle, g.Parent)
+	rs := map[string]string{}
+	for k, v := range g.RegionStyle {
+		rs[k] = bare(v)
+	}
+	es, er := refops.Reach(cs, cr, rs, g.Parent)
 	for k := range er {
 		if !contains(g.Regions, k) {
 			delete(er, k)
@@ -175,6 +179,11 @@ func checkOptimize(g Graph) (string, string, uint64) {
 			}
 		}
 	}
+	for _, rg := range s.Regions {
+		if rg.Style != nil && s.Styles[rg.Style.ID] == rg.Style {
+			resolved[rg.Style] = true
+		}
+	}
 	pan := ""
 	func() {
 		defer func() {
@@ -215,7 +224,7 @@ func checkOptimize(g Graph) (string, string, uint64) {
 					direct[bare(r)] = true
 				}
 				if c.Region != "" {
-					direct[g.RegionStyle[bare(c.Region)]] = true
+					direct[bare(g.RegionStyle[bare(c.Region)])] = true
 				}
 			}
 			onlyParents := true
@@ -251,7 +260,7 @@ func checkOptimize(g Graph) (string, string, uint64) {
 		if defSnap["r:"+k] != fmt.Sprintf("%s %p %p", v.ID, v.Style, v.InlineStyle) {
 			return "optimize.definition-edited", desc + ": kept region " + k + " was modified", 0
 		}
-		if v.Style != nil && s.Styles[v.Style.ID] != v.Style {
+		if v.Style != nil && resolved[v.Style] && s.Styles[v.Style.ID] != v.Style {
 			return "optimize.dangling", desc + ": style of region " + k + " no longer resolves", 0
 		}
 	}
@@ -522,11 +531,11 @@ func c13Run(c *core.Ctx) {
 	// loose references: cue, run and region references to objects that are not the table's (same identifier as a
 	// definition, or an identifier the table does not have), alone and next to an ordinary cue
 	for _, f := range forests(allS) {
-		for _, rs1 := range []string{"", "b", "c"} {
+		for _, rs1 := range []string{"", "b", "c", "~b", "~c", "~zz"} {
 			for _, st := range []string{"", "a", "~a", "~zz"} {
 				for _, rg := range []string{"", "r", "~r", "~zz"} {
 					for _, r1 := range []string{"", "b", "~b", "~zz"} {
-						if !strings.Contains(st+rg+r1, "~") || !c.Mine() {
+						if !strings.Contains(st+rg+r1+rs1, "~") || !c.Mine() {
 							continue
 						}
 						for _, second := range [][]GCue{nil, {{Style: "c", Region: "q", Runs: []string{""}}}} {
